@@ -6,6 +6,18 @@ import Tahoe.Dir.PackLemmas
     UTF-8 decode∘encode = id on names, `json.loads ∘ json.dumps = id` on metadata, decrypt∘encrypt = id
     under the directory's write key, a writeable directory has a write key and an immutable one has none.
     `normalize` is only assumed idempotent, and only where it matters (`names_normalized`). -/
+/-! ## Coverage of the statement (C19, properties.jsonl)
+
+| clause of the statement | theorem(s) for the model `Tahoe.Dir.Pack` |
+|---|---|
+| "for any set of children (Unicode names, normalized …) packing and unpacking again yields the same names" | `unpack_pack`, `unpack_pack_all_kept` (names, order), `names_normalized` (any bytes: names normalized and distinct), `pack_children_names_normalized`; `normalize`/UTF-8 abstract with the hypotheses in `RoundTrip` (NFC itself: **correspondence**, C19-a) |
+| "… the same capabilities", every capability kind | `unpack_pack` gives `canon` of every child (re-creation by `create_from_cap`); `canon` is the identity for known nodes (`canon_known_node`), for an unknown write cap next to a known or unknown read cap (`canon_unknown_rw_known_ro`, `canon_unknown_rw`), for a lone unknown read cap (`canon_unknown_ro_only`); both slots byte-identical after a second generation (`repack_preserves_both_slots`, `pack_unpack_pack`). Caps with trailing spaces are canonicalised (rstrip, by design — inside `canon`); caps with *two* alleged prefixes are NOT preserved: `double_prefix_child_is_dropped_counterexample` (open known finding) |
+| "… unknown future caps" in an immutable directory (strengthening to `imm.`) | inside `canon` (`unpack_pack`); identity statement: **correspondence + monitor only** |
+| "arbitrary JSON metadata … the same metadata" | `unpack_pack` / `unpack_pack_all_kept` under `RoundTrip.json` (JSON codec abstract; sampled on the real `json`) |
+| "immutable directories refuse mutable or write-capable children instead of storing them" | `immutable_dir_refuses_mutable` (pack succeeds iff …; unpack of an immutable directory never returns such a child, for any bytes) |
+| packing a listing for another directory (C19-b), the AuxValueDict cache | cache modelled (`Child.aux`, `pack_unpack_pack`); `pack_children` drops it (`normalizeChildren`): **correspondence + monitor** for the cross-directory case |
+| netstring framing of malformed data (`int()` quirks) | C38; here strict digits: **correspondence** on structured malformed data |
+-/
 namespace Tahoe.C19
 open Tahoe.Dir.Pack
 open Tahoe.Dir.Edit (lookup put)
@@ -284,6 +296,71 @@ theorem canon_unknown_rw_known_ro (cx : DirCtx Key) (hm : cx.mutableDir = true) 
   simp only [canon, hm, hw, Option.getD_some, if_true, Bool.not_true, hstrip, hrw0, hrf0, createFromCap, hrwe,
     orNone, hfw, Bool.false_eq_true, if_false, mkUnknown, hrfe, Bool.false_and, hp3, hfs]
   simp [hp3, hp4]
+
+/-- The same for an unknown write cap next to *any* read cap that `uri.from_string` does not reject (known
+    read-only cap or another unknown cap), without prefix. -/
+theorem canon_unknown_rw (cx : DirCtx Key) (hm : cx.mutableDir = true) (hw : cx.writeable = true)
+    (rw rf : Bytes)
+    (hrw : W.classify rw = .unknown) (hrw0 : rstripOrNone rw = some rw)
+    (hp1 : startsWith rw immPrefix = false) (hp2 : startsWith rw roPrefix = false)
+    (hfs : fromString W.classify rf false ≠ .unknownErr) (hrf0 : rstripOrNone rf = some rf)
+    (hp3 : startsWith rf immPrefix = false) (hp4 : startsWith rf roPrefix = false) :
+    canon W cx ⟨true, some rw, some (roPrefix ++ rf), false, false⟩ =
+      ⟨true, some rw, some (roPrefix ++ rf), false, false⟩ := by
+  have hrwe : truthy (some rw) = true := by
+    cases rw with
+    | nil => simp [rstripOrNone, rstrip] at hrw0
+    | cons a t => rfl
+  have hrfe : truthy (some rf) = true := by
+    cases rf with
+    | nil => simp [rstripOrNone, rstrip] at hrf0
+    | cons a t => rfl
+  have hs1 : startsWith (roPrefix ++ rf) immPrefix = false := by
+    simp [startsWith, roPrefix, immPrefix, List.isPrefixOf]
+  have hs2 : startsWith (roPrefix ++ rf) roPrefix = true := by
+    simp [startsWith, roPrefix, List.isPrefixOf]
+  have hstrip : stripPrefixForRo (roPrefix ++ rf) false = rf := by
+    unfold stripPrefixForRo
+    rw [hs1, hs2]
+    simp [roPrefix]
+  have hfw : fromString W.classify rw false = .unknownOk := by
+    simp [fromString, hp1, hp2, hrw]
+  have hbeq : (fromString W.classify rf false == Parsed.unknownErr) = false := by
+    simpa using hfs
+  simp only [canon, hm, hw, Option.getD_some, if_true, Bool.not_true, hstrip, hrw0, hrf0, createFromCap, hrwe,
+    orNone, hfw, Bool.false_eq_true, if_false, mkUnknown, hrfe, Bool.false_and, hp3, hbeq]
+  simp [hp3, hp4]
+
+/-- A lone read cap of unknown format (held with its `ro.` allegation) comes back as it was. -/
+theorem canon_unknown_ro_only (cx : DirCtx Key) (hm : cx.mutableDir = true) (rf : Bytes)
+    (hfs : fromString W.classify rf false = .unknownOk) (hrf0 : rstripOrNone rf = some rf)
+    (hp3 : startsWith rf immPrefix = false) (hp4 : startsWith rf roPrefix = false) :
+    canon W cx ⟨true, none, some (roPrefix ++ rf), false, false⟩ =
+      ⟨true, none, some (roPrefix ++ rf), false, false⟩ := by
+  have hrfe : truthy (some rf) = true := by
+    cases rf with
+    | nil => simp [rstripOrNone, rstrip] at hrf0
+    | cons a t => rfl
+  have hs1 : startsWith (roPrefix ++ rf) immPrefix = false := by
+    simp [startsWith, roPrefix, immPrefix, List.isPrefixOf]
+  have hs2 : startsWith (roPrefix ++ rf) roPrefix = true := by
+    simp [startsWith, roPrefix, List.isPrefixOf]
+  have hstrip : stripPrefixForRo (roPrefix ++ rf) false = rf := by
+    unfold stripPrefixForRo
+    rw [hs1, hs2]
+    simp [roPrefix]
+  have hnone : rstripOrNone ([] : Bytes) = none := by simp [rstripOrNone, rstrip]
+  have htn : truthy (none : Option Bytes) = false := rfl
+  have hbeq : (fromString W.classify rf false == Parsed.unknownErr) = false := by rw [hfs]; rfl
+  have hite : (if cx.writeable = true then ([] : Bytes) else []) = [] := by split <;> rfl
+  simp only [canon, hm, Option.getD_none, Option.getD_some, hite, Bool.not_true, hstrip, hnone, hrf0, createFromCap,
+    htn, hrfe, orNone, hfs, Bool.false_eq_true, if_false, if_true, mkUnknown, hbeq]
+  simp [hp3, hp4]
+
+example : canon demoWorld ⟨true, true, some ()⟩ ⟨true, some [119], some (roPrefix ++ [114]), false, false⟩ =
+      ⟨true, some [119], some (roPrefix ++ [114]), false, false⟩ ∧
+    canon demoWorld ⟨true, true, some ()⟩ ⟨true, none, some (roPrefix ++ [114]), false, false⟩ =
+      ⟨true, none, some (roPrefix ++ [114]), false, false⟩ := by decide
 
 /-- … hence `pack ∘ unpack ∘ pack` preserves both cap slots: whenever `canon` fixes a node (known nodes —
     `canon_known_node`; a future write cap next to a known read cap — `canon_unknown_rw_known_ro`), the entry that
